@@ -17,9 +17,10 @@ VIOLATES_FN = "violates"
 RULE = ("case = (deliver script: init code of a contract-creation EVM tx made of yield / native send / FunToken.bankMsgSend steps, "
         "optionally reverting; 0-3 requests: eth_call / estimateGas / traceTx (view, value transfer, bankMsgSend of unibi or of another "
         "denom), tx simulation (EVM transfer, EVM bankMsgSend, Cosmos bank send), gRPC balance / funtoken / oracle queries; injection "
-        "point: inside the k-th yield of the in-flight tx, before the tx, after the tx, after Commit), executed through "
+        "point: inside the k-th yield of the in-flight tx, before the tx, between the two txs, after Commit, or PARKED: the request runs "
+        "in its own goroutine and is blocked inside FunToken.sendToBank / sendToEvm (bank keeper log line) while both txs are delivered), executed through "
         "BeginBlock/DeliverTx/EndBlock/Commit on two replicas (with / without the requests); non-trivial = at least one request was "
-        "issued while the EVM tx was in flight (point=yield and reached); distinct = distinct input")
+        "issued while the EVM tx was in flight (point=yield and reached) or really parked inside a precompile method; distinct = distinct input")
 ASSUMPTIONS = [
     "requests are injected inline at yield points of the delivering goroutine (a test precompile registered through "
     "Keeper.AddPrecompiles); schedules in which a request is pre-empted half-way are covered by the model only",
@@ -216,7 +217,11 @@ MANIFEST = {
                  "1.. = eth_call / estimateGas / traceTx / simulation / gRPC scripts, semantics over ALL schedules. A go/ast "
                  "inventory of every function touching the pointer is regenerated from /repo on each run; the obligations "
                  "C09_every_access_guarded (every access sits behind ctx.IsCheckTx(), which is true for query, simulation and CheckTx "
-                 "contexts) and C09_pointer_sites_known hold for the current tree and break on a new unguarded access. For the model "
+                 "contexts) and C09_pointer_sites_known hold for the current tree and break on a new unguarded access; "
+                 "C09_shared_mutable_state_known: every field of the singleton structs shared by both paths (evm Keeper, bank keeper "
+                 "wrapper, collections descriptors, the precompile objects built once by InitPrecompiles) and every package-level var "
+                 "of x/evm is classified in a hand-maintained table (immutable after construction / store-backed / registry / per-call "
+                 "/ the one guarded pointer) — a new cache, flag or counter breaks it. For the model "
                  "these facts select, C09_current_tree proves the FULL statement: for all request scripts, stores and schedules, the "
                  "pointer and the whole deliver thread (committed ledger, written accounts, tx failure, result/event log) equal the "
                  "run of DeliverTx alone, and (C09_current_tree_sequential) the complete sequential execution — by induction over "
@@ -226,11 +231,14 @@ MANIFEST = {
                  "failure class. The selected model's prediction of all observables (app-hash equality, both tx results, 7 "
                  "balances on two replicas) is compared on every run with real BeginBlock/DeliverTx/EndBlock/Commit executions in "
                  "which requests go through app.Query / app.Simulate inside an in-flight EVM tx (yield precompile), before it, "
-                 "between two txs and after Commit; Pb (sound w.r.t. P) must hold on every observed pair."),
+                 "between two txs, after Commit, and from a second goroutine PARKED inside a FunToken precompile method while the "
+                 "block's txs enter the precompile; Pb (sound w.r.t. P) must hold on every observed pair."),
         "design_ref": "DESIGN.md §5 C09",
     },
-    "level_note": ("Theorems are about the model; real schedules are exhibited by inline injection at yield points (pre-emption inside a "
-                   "request is covered by the model only); TestRaceC09 gives -race evidence with real goroutines (before the fix: 103 "
+    "level_note": ("Theorems are about the model; real schedules are exhibited by inline injection at yield points and by parking one "
+                   "request goroutine at two bank-keeper log lines inside sendToBank / sendToEvm (other pre-emption points inside a "
+                   "request are covered by the model and by the static inventory only; the inventory does not descend into the wasm, "
+                   "oracle, bank or staking keepers the evm structs point to); TestRaceC09 gives -race evidence with real goroutines (before the fix: 103 "
                    "reports + committed corruption; after: balances intact, 2 benign reports from value-receiver copies of "
                    "NibiruBankKeeper). The guard recognition of the extractor is syntactic (two accepted forms) and only selects the "
                    "model: M (model vs implementation) and V (Pb on the implementation) still decide. Oracle values: gas of the "
